@@ -120,6 +120,14 @@ def positions(qc):
         j = P.Table("j")
         return qc.update(o).join(j).on(o.k == j.k).set(o.x, j.v).from_(i).where(o.y == 34)
 
+    def in_select(i):       # an IN criterion that is itself a select item: the operand of IN defines no alias, whatever the criterion's position prints
+        return qc.from_(o).select(o.a.isin(i.as_("inq")).as_("flag"), 35)
+
+    def sel_top(i):         # SQL Server: the select list of a statement with TOP
+        if qc is not MSSQLQuery:
+            return None
+        return qc.from_(o).select(o.a, i.as_("sel_alias"), 36).top(5)
+
     def ncols(i):
         sel = getattr(i, "__dict__", {}).get("_selects")
         return len(sel) if isinstance(sel, list) and sel else None
@@ -139,12 +147,13 @@ def positions(qc):
     def func_arg(i):
         return qc.from_(o).select(fn.Coalesce(i, 30))
 
-    return {"from": frm, "join": join, "in": in_, "in-under-not": notin_nested, "comparison": cmp_, "select-item": sel, "update-from": upd_from, "update-from-joined": upd_from_joined, "cte-body": cte, "cte-body-joined-outer": cte_joined, "cte-body-two-from-outer": cte_two_from,
+    return {"from": frm, "join": join, "in": in_, "in-under-not": notin_nested, "comparison": cmp_, "select-item": sel, "in-select-item": in_select, "select-item-under-top": sel_top, "update-from": upd_from, "update-from-joined": upd_from_joined, "cte-body": cte, "cte-body-joined-outer": cte_joined, "cte-body-two-from-outer": cte_two_from,
             "set-operand": setop, "set-base": setop_base, "function-arg": func_arg}
 
 
 PH = re.compile(r"\$(\d+)")
-POS_ALIAS = {"from": "emb", "join": "emb", "update-from": "emb", "update-from-joined": "emb", "select-item": "sel_alias"}
+POS_ALIAS = {"from": "emb", "join": "emb", "update-from": "emb", "update-from-joined": "emb", "select-item": "sel_alias", "select-item-under-top": "sel_alias"}
+POS_NO_ALIAS = {"in-select-item": "inq"}
 
 
 def render(obj, ctx, param, prefill=0):
@@ -213,6 +222,17 @@ def relational(label, qc, mk_inner, pos_name, pos):
             if not (rest.startswith(") %s%s%s" % (aq, al, aq)) or rest.startswith(") AS %s%s%s" % (aq, al, aq))):
                 REL_FAIL.append({"label": label, "class": QNAMES[qc], "position": pos_name + " (the alias the position defines)", "mode": "param" if param else "inline",
                                  "outer_sql": sa, "expected": "...(%s) %s%s%s..." % (itext[:80], aq, al, aq), "inner_standalone": itext})
+        if al and itext in sa and sa[sa.index(itext) - 1:sa.index(itext)] != "(":
+            REL_FAIL.append({"label": label, "class": QNAMES[qc], "position": pos_name + " (the parentheses the position requires)", "mode": "param" if param else "inline",
+                             "outer_sql": sa, "expected": "...(%s)..." % itext[:80], "inner_standalone": itext})
+        # ... and by NO alias where the position defines none (an operand of IN / a comparison)
+        if POS_NO_ALIAS.get(pos_name) and itext in sa:
+            aq = ctx.alias_quote_char or ctx.quote_char
+            rest = sa[sa.index(itext) + len(itext):]
+            own = POS_NO_ALIAS[pos_name]        # the alias the embedded query itself carries (what follows may be the alias of the enclosing criterion)
+            if rest.startswith(") %s%s%s" % (aq, own, aq)) or rest.startswith(") AS %s%s%s" % (aq, own, aq)):
+                REL_FAIL.append({"label": label, "class": QNAMES[qc], "position": pos_name + " (defines no alias)", "mode": "param" if param else "inline",
+                                 "outer_sql": sa, "expected": "...(%s) <no alias>..." % itext[:80], "inner_standalone": itext})
         if expected != sa and alt != sa:
             REL_FAIL.append({"label": label, "class": QNAMES[qc], "position": pos_name, "mode": "param" if param else "inline",
                              "outer_sql": sa, "expected": expected, "inner_standalone": itext})
@@ -265,7 +285,7 @@ def check(run: core.Run):
         run, prop="C10", propfile="Props/C10.v", module="Props.C10", theorems=THEOREMS, header=HEADER, cases=cases(run, rng),
         what="the embedding statement", extra_violations=LazyViolations(), extra_cov=lazy_cov,
         rule="for each inner query (12 hand-made ones - data-modifying statements with RETURNING and row-locked selects included - with aliased terms in WHERE / GROUP BY / HAVING / ORDER BY / ON, nested, with CTE, with values in several "
-             "clauses; random selects and set operations) x 14 embedding positions (UPDATE .. FROM source, CTE body under a joining or two-source outer statement, FROM, JOIN, IN, IN under NOT in a mixed AND/OR group, comparison operand, select-list "
+             "clauses; random selects and set operations) x 16 embedding positions (IN criterion as a select item, select item under TOP, UPDATE .. FROM source, CTE body under a joining or two-source outer statement, FROM, JOIN, IN, IN under NOT in a mixed AND/OR group, comparison operand, select-list "
              "item, CTE body, set-operation operand and base, function argument) x 6 classes x {inline, parameterised}: the outer statement's text must equal the text "
              "of the same outer statement around a marker query, with the marker's stand-alone text replaced by the inner query's stand-alone text (placeholders renumbered by "
              "the values preceding the position). Exact string equality between implementation outputs, evaluated in the harness; the Coq case file carries the "
